@@ -133,15 +133,16 @@ func addLeaf(t Tree, r *Route, s *Segment, h Handler) (Leaf, error) {
 
 	if leaf.getSegment().Optional {
 		parent := leaf.getParent()
+		var shortLeaf Leaf
 		if parent.getParent() != nil {
-			_, err = addLeaf(parent.getParent(), r, parent.getSegment(), h)
+			shortLeaf, err = addLeaf(parent.getParent(), r, parent.getSegment(), h)
 			if err != nil {
 				return nil, errors.Wrap(err, "add optional leaf to grandparent")
 			}
 		} else {
 			// The parent is the root tree which has no segment, the route without its
 			// optional segment is "/", i.e. a leaf derived from an empty segment.
-			_, err = addLeaf(parent, r, &Segment{Pos: s.Pos}, h)
+			shortLeaf, err = addLeaf(parent, r, &Segment{Pos: s.Pos}, h)
 			if err != nil {
 				return nil, errors.Wrap(err, "add optional leaf to parent")
 			}
@@ -149,6 +150,7 @@ func addLeaf(t Tree, r *Route, s *Segment, h Handler) (Leaf, error) {
 			// The leaf has been added to the same tree, reload the list.
 			leaves = t.getLeaves()
 		}
+		leaf.setShortLeaf(shortLeaf)
 	}
 
 	// Determine leaf position by the priority of match styles.
